@@ -6,8 +6,10 @@ import (
 	"strings"
 	"testing"
 
+	"github.com/llir/llvm/ir"
 	"pgregory.net/rapid"
 
+	"verif/h/am"
 	"verif/h/corpus"
 	"verif/h/gen"
 	"verif/h/hx"
@@ -159,6 +161,9 @@ func TestGenerated(t *testing.T) {
 		hx.Eval(1)
 		o := judge(rt, test, "own-generator", "; source: own-generator\n"+x, true)
 		if o.V == orc.OK {
+			if d := inventory(m, o.M); d != "" {
+				hx.Fail(rt, test, "ll", "; source: own-generator\n"+x, "inventory: %s (LLVM's canonical form drops unused definitions and applied use-list orders, so these are compared directly)\n--- printed output ---\n%s", d, o.Out)
+			}
 			for k, v := range feats {
 				hx.HistN(k, v)
 			}
@@ -168,4 +173,42 @@ func TestGenerated(t *testing.T) {
 		}
 		hx.SampleCase(test, x)
 	})
+}
+
+// inventory compares what the generator emitted with what the parsed module lists, for the kinds of
+// definitions that LLVM's canonical form silently drops when unused (type definitions, attribute
+// groups, unreferenced metadata, use-list orders) and for the others as a cross-check.
+func inventory(m *am.Module, pm *ir.Module) string {
+	namedMD := map[string]bool{}
+	for _, n := range m.NamedMDs {
+		namedMD[n.Name] = true
+	}
+	ulo := len(m.UseListOrders)
+	pulo := len(pm.UseListOrders)
+	for _, f := range m.Funcs {
+		ulo += len(f.UseListOrders)
+	}
+	for _, f := range pm.Funcs {
+		pulo += len(f.UseListOrders)
+	}
+	for _, c := range []struct {
+		what      string
+		want, got int
+	}{
+		{"type definitions", len(m.U.Defs), len(pm.TypeDefs)},
+		{"comdats", len(m.Comdats), len(pm.ComdatDefs)},
+		{"global variables", len(m.Globals), len(pm.Globals)},
+		{"aliases and ifuncs", len(m.Aliases), len(pm.Aliases) + len(pm.IFuncs)},
+		{"functions", len(m.Funcs), len(pm.Funcs)},
+		{"attribute groups", len(m.AttrGroups), len(pm.AttrGroupDefs)},
+		{"named metadata", len(namedMD), len(pm.NamedMetadataDefs)},
+		{"metadata definitions", len(m.MDs), len(pm.MetadataDefs)},
+		{"use-list orders", ulo, pulo},
+		{"module asm lines", len(m.Asm), len(pm.ModuleAsms)},
+	} {
+		if c.want != c.got {
+			return fmt.Sprintf("the input defines %d %s, the parsed module lists %d", c.want, c.what, c.got)
+		}
+	}
+	return ""
 }
